@@ -87,10 +87,10 @@ fn grid_create() -> Vec<CreateCase> {
                 InFile { name: format!("{}.blp", "A_very_long_texture_name_".repeat(4)), class: ContentClass::Period, len: 777, seed: 12 },
             ];
             let extract = match k % 4 {
-                0 => ExtractOpts { threads: None, preserve: false, explicit: None, skip_errors: false },
-                1 => ExtractOpts { threads: Some(2), preserve: true, explicit: Some(vec![NameSel::Present(0), NameSel::Present(30000)]), skip_errors: false },
-                2 => ExtractOpts { threads: Some(1), preserve: false, explicit: Some(vec![NameSel::Present(20000), NameSel::Missing(1)]), skip_errors: false },
-                _ => ExtractOpts { threads: None, preserve: true, explicit: Some(vec![NameSel::Missing(0), NameSel::Present(0), NameSel::Present(50000)]), skip_errors: true },
+                0 => ExtractOpts { threads: None, preserve: false, explicit: None, skip_errors: false, prefill: (k % 4) as u8 },
+                1 => ExtractOpts { threads: Some(2), preserve: true, explicit: Some(vec![NameSel::Present(0), NameSel::Present(30000)]), skip_errors: false, prefill: (k % 4) as u8 },
+                2 => ExtractOpts { threads: Some(1), preserve: false, explicit: Some(vec![NameSel::Present(20000), NameSel::Missing(1)]), skip_errors: false, prefill: (k % 4) as u8 },
+                _ => ExtractOpts { threads: None, preserve: true, explicit: Some(vec![NameSel::Missing(0), NameSel::Present(0), NameSel::Present(50000)]), skip_errors: true, prefill: (k % 4) as u8 },
             };
             v.push(CreateCase { files, version, compression, with_listfile: k % 3 != 0, extract });
         }
@@ -104,10 +104,10 @@ fn grid_lib() -> Vec<LibCase> {
         let spec = fixtures::mpq_spec(id).unwrap();
         for k in 0..4usize {
             let extract = match (i + k) % 4 {
-                0 => ExtractOpts { threads: None, preserve: true, explicit: None, skip_errors: false },
-                1 => ExtractOpts { threads: Some(2), preserve: false, explicit: Some(vec![NameSel::Present(20000), NameSel::Present(40000)]), skip_errors: false },
-                2 => ExtractOpts { threads: None, preserve: true, explicit: Some(vec![NameSel::Present(40000), NameSel::Missing(2)]), skip_errors: false },
-                _ => ExtractOpts { threads: Some(5), preserve: k % 2 == 0, explicit: Some(vec![NameSel::Missing(3), NameSel::Present(20000)]), skip_errors: true },
+                0 => ExtractOpts { threads: None, preserve: true, explicit: None, skip_errors: false, prefill: (k % 4) as u8 },
+                1 => ExtractOpts { threads: Some(2), preserve: false, explicit: Some(vec![NameSel::Present(20000), NameSel::Present(40000)]), skip_errors: false, prefill: (k % 4) as u8 },
+                2 => ExtractOpts { threads: None, preserve: true, explicit: Some(vec![NameSel::Present(40000), NameSel::Missing(2)]), skip_errors: false, prefill: (k % 4) as u8 },
+                _ => ExtractOpts { threads: Some(5), preserve: k % 2 == 0, explicit: Some(vec![NameSel::Missing(3), NameSel::Present(20000)]), skip_errors: true, prefill: (k % 4) as u8 },
             };
             v.push(LibCase { spec: spec.clone(), extract });
         }
